@@ -79,6 +79,120 @@ example : ∃ M forms s ops i, build M forms s ops = some i ∧ i.operands = ops
   ⟨{ (default : Meta) with oprndTypes := [(0, OpClass.rel32.checker)], sffxsClsSets := [[(0, 0)]] },
    [⟨1, 1, 0, 1, 1, [⟨1, false, 0⟩]⟩], (0, 0), [.rel 5], _, rfl, rfl, by simp⟩
 
+/-! ## Branch / terminal attributes -/
+
+/-- The statement behind `attrsOK`, declaratively: an instruction is terminal
+exactly when its mnemonic is `RET`, a branch exactly when the mnemonic starts
+with `J`, and conditional exactly when it is such a jump other than `JMP`. -/
+def AttrSpec (k : Nat) (terminal branch conditional : Bool) : Prop :=
+  (terminal = true ↔ k = kRET) ∧ (branch = true ↔ firstByte k = 0x4A) ∧
+  (conditional = true ↔ (firstByte k = 0x4A ∧ k ≠ kJMP))
+
+/-- **Soundness of the attribute acceptor** (`accept-attrs` lines). -/
+theorem attrsOK_sound (k : Nat) (t b c : Bool) (h : attrsOK k t b c = true) : AttrSpec k t b c := by
+  unfold attrsOK specFeat at h
+  simp only [Bool.and_eq_true, beq_iff_eq] at h
+  obtain ⟨⟨ht, hb⟩, hc⟩ := h
+  subst ht; subst hb; subst hc
+  refine ⟨by simp, by simp, by simp⟩
+
+/-- and completeness: the acceptor rejects nothing that satisfies the statement -/
+theorem attrsOK_complete (k : Nat) (t b c : Bool) (h : AttrSpec k t b c) : attrsOK k t b c = true := by
+  obtain ⟨ht, hb, hc⟩ := h
+  unfold attrsOK specFeat
+  cases t <;> cases b <;> cases c <;> simp_all
+
+example : AttrSpec kJMP false true false := attrsOK_sound _ _ _ _ (by decide)
+example : AttrSpec kRET true false false := attrsOK_sound _ _ _ _ (by decide)
+example : attrsOK kJMP false false false = false := by decide
+
+/-- **Attributes of a built instruction.** If every form of the list carries
+the features of its mnemonic, so does every instruction `build` returns:
+terminal / branch / conditional are what the mnemonic says, whichever form
+matched (an indirect `JMP` is a branch like a relative one). -/
+theorem build_attrs (M : Meta) (forms : List Form) (s : Sfx) (ops : List Operand) (i : Instr)
+    (h : build M forms s ops = some i) (hf : ∀ f ∈ forms, f.featOK M = true) :
+    AttrSpec (Name.key (opcString M i.opc)) i.isTerminal i.isBranch i.isConditional := by
+  obtain ⟨pre, f, post, hsplit, _, _, hi⟩ := build_first M forms s ops i h
+  subst hi
+  have hmem : f ∈ forms := by rw [hsplit]; simp
+  have := hf f hmem
+  unfold Form.featOK at this
+  exact attrsOK_sound _ _ _ _ (by simpa [Form.instr] using this)
+
+/-! ## No panic: a matched well-formed form always builds -/
+
+theorem io_no_panic (M : Meta) : ∀ (specs : List FOp) (ops : List Operand),
+    (∀ s ∈ specs, s.impl = true → (implReg M s.ty).isSome = true) →
+    specs.countP (fun s => !s.impl) ≤ ops.length → (io M specs ops).2.2 = false := by
+  intro specs
+  induction specs with
+  | nil => intro ops _ _; simp [io]
+  | cons sp specs ih =>
+    intro ops himpl hcnt
+    unfold io
+    by_cases hty : (sp.ty == 0) = true
+    · simp [hty]
+    · simp only [hty, Bool.false_eq_true, if_false]
+      have himpl' : ∀ s ∈ specs, s.impl = true → (implReg M s.ty).isSome = true :=
+        fun s hs => himpl s (List.mem_cons_of_mem _ hs)
+      cases hi : sp.impl with
+      | true =>
+        have hsome := himpl sp (List.mem_cons_self) hi
+        have hc : specs.countP (fun s => !s.impl) ≤ ops.length := by
+          simpa [List.countP_cons, hi] using hcnt
+        cases hr : implReg M sp.ty with
+        | none => rw [hr] at hsome; cases hsome
+        | some r =>
+          simp only [if_true, Option.map_some]
+          have := ih ops himpl' hc
+          simp only [this]
+      | false =>
+        cases ops with
+        | nil => simp [hi] at hcnt
+        | cons o os =>
+          have hc : specs.countP (fun s => !s.impl) ≤ os.length := by
+            simp [hi] at hcnt; omega
+          simp only [Bool.false_eq_true, if_false]
+          have := ih os himpl' hc
+          simp only [this]
+
+/-- **A matching well-formed form never panics** in `form.build`: every
+implicit code names a register and there are exactly as many explicit entries
+as operands. -/
+theorem instr_no_panic (M : Meta) (f : Form) (s : Sfx) (ops : List Operand)
+    (hwf : f.wf M = true) (hm : f.matches M s ops = true) : (f.instr M s ops).panics = false := by
+  unfold Form.wf at hwf
+  simp only [Bool.and_eq_true, List.all_eq_true, decide_eq_true_eq, Bool.not_eq_true'] at hwf
+  obtain ⟨⟨⟨⟨⟨harity, _⟩, htake⟩, hdrop⟩, _⟩, _⟩ := hwf
+  unfold Form.matches at hm
+  simp only [Bool.and_eq_true, beq_iff_eq] at hm
+  obtain ⟨⟨_, hlen⟩, _⟩ := hm
+  have hsplit : f.ops = f.ops.take f.arity ++ f.ops.drop f.arity := (List.take_append_drop _ _).symm
+  show (io M f.ops ops).2.2 = false
+  apply io_no_panic
+  · intro sp hsp himpl
+    rw [hsplit] at hsp
+    rcases List.mem_append.mp hsp with h | h
+    · have := (htake sp h).1.1; rw [himpl] at this; cases this
+    · exact (hdrop sp h).1.2
+  · rw [hsplit, List.countP_append]
+    have h1 : (f.ops.take f.arity).countP (fun s => !s.impl) ≤ f.arity := by
+      calc _ ≤ (f.ops.take f.arity).length := List.countP_le_length
+        _ ≤ f.arity := by simp [List.length_take]; omega
+    have h2 : (f.ops.drop f.arity).countP (fun s => !s.impl) = 0 := by
+      apply List.countP_eq_zero.mpr
+      intro sp hsp
+      have := (hdrop sp hsp).1.1
+      simp [this]
+    omega
+
+theorem build_no_panic (M : Meta) (forms : List Form) (s : Sfx) (ops : List Operand) (i : Instr)
+    (h : build M forms s ops = some i) (hwf : ∀ f ∈ forms, f.wf M = true) : i.panics = false := by
+  obtain ⟨pre, f, post, hsplit, _, hm, hi⟩ := build_first M forms s ops i h
+  subst hi
+  exact instr_no_panic M f s ops (hwf f (by rw [hsplit]; simp)) hm
+
 /-! ## `addinstruction` -/
 
 /-- On success exactly one node is appended and the error count is unchanged. -/
